@@ -3,28 +3,35 @@
 (* one or more calls of Shutdown (overlapping or one after the other), each with its own context.               *)
 (* Events: Config{n,q,conns}  ReqSent{c,r,ow}  Read{c,r} Invoked{r} Written{r} ConnClosed{c} AcceptExit Released (hooks) *)
 (*         RespRecv{c,r} CloseMsgRecv{c} PeerEOF{c} (client observations)  ShutdownStart{k} ShutdownEnd{k,expired}  End *)
+(*         ClientReads{c} (a client that was not reading starts to read)  RespCut{c,r,got,want} (the stream ended inside   *)
+(*         the response of r: the client has got bytes of want)                                                          *)
 (* Request r = 10 * connection + ordinal on that connection.                                                     *)
 EXTENDS ServerShutdown, Json
 VARIABLES l,
           seen,   \* connections whose client has received the close notification
           gone,   \* connections whose client vanished (abortive close by the client: ClientAbort)
-          ow      \* requests sent as one-way: handled like the others, never answered on the wire
+          ow,     \* requests sent as one-way: handled like the others, never answered on the wire
+          recvd   \* requests whose complete response has reached the client
 Trace == ndJsonDeserialize("trace.ndjson")
-tvars == <<vars, l, seen, gone, ow>>
-TraceInit == Init /\ l = 1 /\ seen = {} /\ gone = {} /\ ow = {}
+tvars == <<vars, l, seen, gone, ow, recvd>>
+TraceInit == Init /\ l = 1 /\ seen = {} /\ gone = {} /\ ow = {} /\ recvd = {}
 IsEvent(e) == l <= Len(Trace) /\ Trace[l].e = e /\ l' = l + 1
-Keep == UNCHANGED <<seen, gone, ow>>
+Keep == UNCHANGED <<seen, gone, ow, recvd>>
 TReqSent == /\ IsEvent("ReqSent") /\ ClientSend(Trace[l].r) /\ ConnOf[Trace[l].r] = Trace[l].c
-            /\ ow' = (IF Trace[l].ow THEN ow \cup {Trace[l].r} ELSE ow) /\ UNCHANGED <<seen, gone>>
+            /\ ow' = (IF Trace[l].ow THEN ow \cup {Trace[l].r} ELSE ow) /\ UNCHANGED <<seen, gone, recvd>>
 TRead == IsEvent("Read") /\ RecvRead(Trace[l].c) /\ Head(inbuf[Trace[l].c]) = Trace[l].r /\ Keep
 \* the handler of a one-way request ends without a write, right after the invocation
 OneWayDone(r) == /\ st[r] = "running" /\ st' = [st EXCEPT ![r] = "written"]
                  /\ numInvoke' = [numInvoke EXCEPT ![ConnOf[r]] = @ - 1]
                  /\ lateWrite' = (lateWrite \/ sock[ConnOf[r]] = "closed")
-                 /\ UNCHANGED <<hr, inbuf, rpc, sock, notified, isClosed, apc, jobQ, dpc, dj, spc, expired>>
+                 /\ UNCHANGED <<hr, inbuf, rpc, sock, notified, isClosed, apc, jobQ, dpc, dj, spc, expired, early>>
 TInvoked == IsEvent("Invoked") /\ (IF Trace[l].r \in ow THEN OneWayDone(Trace[l].r) ELSE Invoke(Trace[l].r)) /\ Keep
-\* (the hook is reached after conn.Write whether the write succeeded or not; a one-way request never gets there)
-TWritten == IsEvent("Written") /\ Trace[l].r \notin ow /\ Write(Trace[l].r) /\ Keep
+\* (the hook is reached after conn.Write has returned, whether the write succeeded or not; a one-way request never gets there).
+\* No hook reports the entry into conn.Write: WriteBegin is taken where the run needs it (TSilent), i.e. right before the first
+\* event that tells that the write has begun.  Between the Invoked and the Written report of a request the handler is in
+\* (or about to enter) conn.Write and the request still counts in numInvoke: a close of its connection in between is rejected.
+TWritten == IsEvent("Written") /\ Trace[l].r \notin ow /\ WriteEnd(Trace[l].r) /\ Keep
+WriteBeginNext(r) == l <= Len(Trace) /\ Trace[l].e \in {"Written", "RespRecv", "RespCut"} /\ Trace[l].r = r
 \* The steps of the model that no hook reports are taken where the run needs them (a reduction of the search, not of the
 \* accepted runs: each of them, once enabled, stays enabled until the step that reads its effect, and enables nothing earlier
 \* that an observed event depends on):
@@ -34,11 +41,18 @@ TWritten == IsEvent("Written") /\ Trace[l].r \notin ow /\ Write(Trace[l].r) /\ K
 \*  - the expiry of a context right before the return of its own call.
 CanReturn(c) == /\ rpc[c] = "reading"
                 /\ \/ isClosed /\ inbuf[c] = <<>> /\ (RT \/ notified[c])
+                   \/ Idle /\ ~isClosed /\ inbuf[c] = <<>>            \* idle close (with numInvoke = 0, see ReturnAndClose / TPeerEOF)
                    \/ sock[c] = "closed"
                    \/ c \in gone
 ReturnAndClose(c) == /\ CanReturn(c) /\ numInvoke[c] = 0
                      /\ rpc' = [rpc EXCEPT ![c] = "closed"] /\ sock' = [sock EXCEPT ![c] = "closed"] /\ inbuf' = [inbuf EXCEPT ![c] = <<>>]
-                     /\ UNCHANGED <<hr, st, numInvoke, notified, isClosed, apc, jobQ, dpc, dj, spc, expired, lateWrite>>
+                     /\ early' = (IF isClosed THEN early ELSE early \cup {c})
+                     \* as in RecvClose: a recv loop that ends while the server is closing writes the close notification itself if the
+                     \* poller has not got to its connection (with a read timeout the loop can end before the poller's first round, and
+                     \* the poller's round can itself be waiting behind a response write to another connection); that the notification
+                     \* reached the client is judged on the client's side (TCloseMsgRecv, TPeerEOF)
+                     /\ notified' = [notified EXCEPT ![c] = @ \/ (SelfNotify /\ isClosed)]
+                     /\ UNCHANGED <<hr, st, numInvoke, isClosed, apc, jobQ, dpc, dj, spc, expired, lateWrite>>
 TConnClosed == IsEvent("ConnClosed") /\ (RecvClose(Trace[l].c) \/ ReturnAndClose(Trace[l].c)) /\ Keep
 \* the hook of the accept loop is reached after the loop has published its exit (isListenClosed): on a loaded machine the
 \* poller can send the close message, and a client can report it, before the hook is recorded.  The model's step is taken
@@ -50,17 +64,27 @@ TShutdownStart == IsEvent("ShutdownStart") /\ Trace[l].k \in Calls /\ ShutdownSt
 \* the call returned: either everything had drained, or its own context had expired (the context of another call does not count)
 TShutdownEnd == IsEvent("ShutdownEnd") /\ ShutdownReturn(Trace[l].k) /\ (Trace[l].expired = expired[Trace[l].k]) /\ Keep
 \* client-side observations
-TRespRecv == IsEvent("RespRecv") /\ Trace[l].r \notin ow /\ st[Trace[l].r] \in {"invoked", "written"} /\ UNCHANGED vars /\ Keep   \* the write sits between the two hooks
-TCloseMsgRecv == IsEvent("CloseMsgRecv") /\ notified[Trace[l].c] /\ UNCHANGED vars /\ seen' = seen \cup {Trace[l].c} /\ UNCHANGED <<gone, ow>>
+\* the complete response has reached the client: the write has at least begun (its end is reported by the hook after conn.Write)
+TRespRecv == /\ IsEvent("RespRecv") /\ Trace[l].r \notin ow /\ st[Trace[l].r] \in {"writing", "written"} /\ UNCHANGED vars
+             /\ recvd' = recvd \cup {Trace[l].r} /\ UNCHANGED <<seen, gone, ow>>
+\* the stream ended inside a response: its connection was closed before the response had been written.  Never a behaviour of a
+\* graceful server towards a client that is still there.
+TRespCut == IsEvent("RespCut") /\ Trace[l].c \in gone /\ UNCHANGED vars /\ Keep
+\* a client that was slow to read starts reading (what the server has in flight to it is blocked in conn.Write until then)
+TClientReads == IsEvent("ClientReads") /\ UNCHANGED vars /\ Keep
+TCloseMsgRecv == IsEvent("CloseMsgRecv") /\ notified[Trace[l].c] /\ UNCHANGED vars /\ seen' = seen \cup {Trace[l].c} /\ UNCHANGED <<gone, ow, recvd>>
 \* the client may see the end of the stream before the server-side hook after conn.Close() is recorded.  The server writes
 \* the close notification before it closes a connection, and TCP keeps the order: a client that is still there sees the
 \* notification before the end of the stream ("connected clients are sent the reconnect notification")
 TPeerEOF == /\ IsEvent("PeerEOF")
             /\ (sock[Trace[l].c] = "closed" \/ ((rpc[Trace[l].c] = "draining" \/ CanReturn(Trace[l].c)) /\ numInvoke[Trace[l].c] = 0))
-            /\ Trace[l].c \in seen
+            /\ (Trace[l].c \in seen \/ Trace[l].c \in early \/ ~isClosed)     \* (an idle close without any shutdown owes no notification)
+            \* the client's side of "its response written before that connection is closed": the complete response of every
+            \* request read from this connection (one-way requests have none) is in the stream before its end
+            /\ \A r \in Reqs : (ConnOf[r] = Trace[l].c /\ WasRead(r) /\ r \notin ow) => r \in recvd
             /\ UNCHANGED vars /\ Keep
 \* the client of connection c vanishes with a reset: nothing more is sent or observed on it; the server's read fails
-TClientAbort == IsEvent("ClientAbort") /\ UNCHANGED vars /\ gone' = gone \cup {Trace[l].c} /\ UNCHANGED <<seen, ow>>
+TClientAbort == IsEvent("ClientAbort") /\ UNCHANGED vars /\ gone' = gone \cup {Trace[l].c} /\ UNCHANGED <<seen, ow, recvd>>
 \* end of the run (the harness waited well beyond every handler duration): everything read was answered,
 \* and unless the context expired every connection drained
 TEnd == /\ IsEvent("End")
@@ -69,29 +93,30 @@ TEnd == /\ IsEvent("End")
         /\ ((\E k \in Calls : spc[k] = "returned" /\ ~expired[k]) => AllConnsClosed)   \* by the end of the run every recv goroutine has finished as well
         /\ UNCHANGED vars /\ Keep
 \* a new run starts: N and Q of a run are constants of the TLC run (traces are grouped by configuration)
-TConfig == /\ IsEvent("Config") /\ Trace[l].n = N /\ Trace[l].q = Q
+TConfig == /\ IsEvent("Config") /\ Trace[l].n = N /\ Trace[l].q = Q /\ Trace[l].idle = Idle
            /\ st' = [r \in Reqs |-> "unsent"] /\ inbuf' = [c \in Conns |-> <<>>]
            /\ hr' = [c \in Conns |-> 0]
            /\ rpc' = [c \in Conns |-> IF c <= Trace[l].conns THEN "reading" ELSE "closed"]
            /\ sock' = [c \in Conns |-> IF c <= Trace[l].conns THEN "open" ELSE "closed"]
            /\ numInvoke' = [c \in Conns |-> 0] /\ notified' = [c \in Conns |-> c > Trace[l].conns]
            /\ isClosed' = FALSE /\ apc' = "accepting" /\ jobQ' = <<>> /\ dpc' = "sel" /\ dj' = 0
-           /\ spc' = [k \in Calls |-> "idle"] /\ expired' = [k \in Calls |-> FALSE] /\ lateWrite' = FALSE
-           /\ seen' = {} /\ gone' = {} /\ ow' = {}
+           /\ spc' = [k \in Calls |-> "idle"] /\ expired' = [k \in Calls |-> FALSE] /\ lateWrite' = FALSE /\ early' = {}
+           /\ seen' = {} /\ gone' = {} /\ ow' = {} /\ recvd' = {}
 ExpiryNext(k) == l <= Len(Trace) /\ Trace[l].e = "ShutdownEnd" /\ Trace[l].k = k /\ Trace[l].expired
 PollerCloseNext(c) == /\ l <= Len(Trace)
                       /\ \/ Trace[l].e = "ShutdownEnd"
                          \/ Trace[l].e \in {"PeerEOF", "ConnClosed"} /\ Trace[l].c = c
 TSilent == /\ \/ \E c \in Conns : Hand(c)
               \/ DTake \/ DHand \/ PoolStop \/ Notify
+              \/ \E r \in Reqs : WriteBegin(r) /\ WriteBeginNext(r)
               \/ AcceptExit /\ AcceptExitNext
               \/ \E c \in Conns : PollerClose(c) /\ PollerCloseNext(c)
               \/ \E k \in Calls : Expire(k) /\ ExpiryNext(k)
-           /\ UNCHANGED <<l, seen, gone, ow>>
+           /\ UNCHANGED <<l, seen, gone, ow, recvd>>
 TraceNext == TClientAbort \/ TReqSent \/ TRead \/ TInvoked \/ TWritten \/ TConnClosed \/ TAcceptExit \/ TReleased \/ TShutdownStart
-             \/ TShutdownEnd \/ TRespRecv \/ TCloseMsgRecv \/ TPeerEOF \/ TEnd \/ TConfig \/ TSilent
+             \/ TShutdownEnd \/ TRespRecv \/ TRespCut \/ TClientReads \/ TCloseMsgRecv \/ TPeerEOF \/ TEnd \/ TConfig \/ TSilent
 \* a connection whose client vanished is ended by the client, not by the shutdown: no notification is owed to it
-NotifiedT == \A c \in Conns \ gone : (sock[c] = "closed" /\ Begun) => notified[c]
+NotifiedT == \A c \in (Conns \ gone) \ early : (sock[c] = "closed" /\ Begun) => notified[c]
 TraceSpec == TraceInit /\ [][TraceNext]_tvars
 ASSUME TLCSet(1, 0)
 HighWater == (IF l > TLCGet(1) THEN TLCSet(1, l) ELSE TRUE)
